@@ -673,7 +673,10 @@ class Exec:
         # axioms introduced inside (count facts ...) are closed formulas: keep them
         from .npmodel2 import free_consts
         bound_ids = {v.get_id() for v in allvars}
+        guard_ids = {Z(g).get_id() for g in guards if not (g is True)}
         for f in loc.pc[len(st.pc):]:
+            if f.get_id() in guard_ids:
+                continue        # the comprehension's own range / filter conditions are not facts of the enclosing path
             if not any(c.get_id() in bound_ids for c in free_consts(f)):
                 st.pc.append(f)
         return allvars, AND(*guards), val, loc
@@ -900,7 +903,26 @@ class Exec:
 
     # -- contracts at call sites
     def spec_env(self, c, args, kw, st, q):
-        env = self.bind_args(c.fn, args, kw, st, q)
+        case_params = set((c.options.get('cases') or {}).keys())
+        extra = {k: v for k, v in kw.items() if k in case_params}
+        env = self.bind_args(c.fn, args, {k: v for k, v in kw.items() if k not in case_params}, st, q)
+        # parameters that the contract case-splits on are ordinary parameters of the real function
+        fi = self.prog.funcs.get(q)
+        if fi is not None and case_params:
+            real = [a.arg for a in fi.node.args.args]
+            defaults = fi.node.args.defaults
+            for cp in case_params:
+                if cp in extra:
+                    env[cp] = extra[cp]
+                elif cp in real:
+                    k = real.index(cp)
+                    if k < len(args) and cp not in env:
+                        env[cp] = args[k]
+                    elif cp not in env:
+                        di = k - (len(real) - len(defaults))
+                        loc = State({}, st.heap, st.ver, st.pc, st.ghost)
+                        env[cp] = self.ev(defaults[di], loc) if di >= 0 else None
+                        st.heap, st.ver = loc.heap, loc.ver
         return env
 
     def apply_contract(self, c, q, args, kw, st, node, self_obj=None):
